@@ -84,7 +84,13 @@ SpkBgpAdvs == [
   A6 |-> BA("A6", {}, "", {}, 0, 0, 0, {}),
   A7 |-> BA("A7", {}, "", {}, 32, 128, 0, {}),
   A8 |-> BA("A8", {}, "a", {}, 24, 64, 10, {"c2"}),
-  A9 |-> BA("A9", {"pl"}, "", {"p1", "p2"}, 26, 66, 7, {"c1", "c2"})
+  A9 |-> BA("A9", {"pl"}, "", {"p1", "p2"}, 26, 66, 7, {"c1", "c2"}),
+  \* several advertisements of the SAME aggregation length on one pool
+  A10 |-> BA("A10", {"pl"}, "", {"p1"}, 32, 128, 100, {"c1"}),
+  A11 |-> BA("A11", {"pl"}, "", {"p2"}, 32, 128, 200, {"c2"}),
+  A12 |-> BA("A12", {"pl"}, "", {"p1"}, 32, 128, 100, {"L1"}),
+  A13 |-> BA("A13", {"ph"}, "", {"p1"}, 24, 64, 10, {}),
+  A14 |-> BA("A14", {"ph"}, "a", {"p2"}, 24, 64, 20, {"c1", "L1"})
 ]
 
 PR(name, nsel) == [name |-> name, nsel |-> nsel]
@@ -97,6 +103,8 @@ SpkLayouts == [
   B2 |-> Lay({"pl", "ph"}, {}, {"A4", "A5"}, {PR("p1", "b"), PR("p2", "")}),
   B3 |-> Lay({"pl", "ph"}, {}, {"A1", "A9"}, {PR("p1", ""), PR("p2", "")}),
   B4 |-> Lay({"pl", "ph"}, {}, {"A1"}, {PR("p1", ""), PR("p2", "a")}),
+  B5 |-> Lay({"pl", "ph"}, {}, {"A10", "A11", "A12", "A13", "A14"}, {PR("p1", ""), PR("p2", "")}),
+  B6 |-> Lay({"pl", "ph"}, {}, {"A10", "A11"}, {PR("p1", ""), PR("p2", "a")}),
   BZ |-> Lay({"pz"}, {}, {"A6"}, {PR("p1", "")}),
   \* layer 2 and BGP
   C1 |-> Lay({"pw"}, {"X1"}, {"A7"}, {PR("p1", "")}),
@@ -105,6 +113,7 @@ SpkLayouts == [
   C4 |-> Lay({"pl", "ph"}, {"X4", "X5"}, {"A4"}, {PR("p1", "a")}),
   C5 |-> Lay({"pw"}, {"X6"}, {"A7"}, {PR("p2", "")}),
   C6 |-> Lay({"pw"}, {"X3"}, {"A7"}, {PR("p1", "")}),
+  C7 |-> Lay({"pw"}, {"X1"}, {"A7"}, {PR("p1", "a"), PR("p2", "")}),
   \* layer 2 only
   D1 |-> Lay({"pw"}, {"X1"}, {}, {}),
   D2 |-> Lay({"pw"}, {"X2"}, {}, {}),
@@ -170,25 +179,26 @@ PeerShouldRun(p, me) == p.nsel = "" \/ (me # NULL /\ me.label = p.nsel)
 
 ----------------------------------------------------------------------------
 (* Eligibility (ShouldAnnounce of both protocols).  `seen` = the nodes the  *)
-(* speaker knows (c.nodes), members/ml = the memberlist view.               *)
+(* speaker knows (c.nodes), members/ml = the memberlist view, ign =         *)
+(* --ignore-exclude-lb.                                                     *)
 AnyReady(v) == \E e \in v.eps : e.ready
 ReadyOn(v, n) == \E e \in v.eps : e.ready /\ e.node = n
 
-BGPShould(ld, seen, pool, v) ==
+BGPShould(ld, seen, ign, pool, v) ==
   /\ \E x \in DOMAIN ld.bgp[pool] : Me \in ld.bgp[pool][x]
-  /\ ~Unavail(seen[Me]) /\ ~Excl(seen[Me])
+  /\ ~Unavail(seen[Me]) /\ (ign \/ ~Excl(seen[Me]))
   /\ IF v.etp = "Local" THEN ReadyOn(v, Me) ELSE AnyReady(v)
 
 L2OnNode(ld, pool, n) == \E x \in DOMAIN ld.l2[pool] : n \in ld.l2[pool][x]
 Winner(avail, a, rank) ==
   IF Me \notin avail THEN Other(Me) ELSE IF avail = {Me} THEN Me ELSE rank[a]
-L2Should(ld, seen, members, ml, pool, v, rank) ==
+L2Should(ld, seen, env, pool, v) ==
   /\ AnyReady(v)
   /\ L2OnNode(ld, pool, Me)
-  /\ LET elig == IF ml THEN members ELSE {n \in SpkNodes : seen[n] # NULL}
-         spk == {n \in elig : ~Unavail(seen[n]) /\ ~Excl(seen[n]) /\ L2OnNode(ld, pool, n)}
+  /\ LET elig == IF env.ml THEN env.members ELSE {n \in SpkNodes : seen[n] # NULL}
+         spk == {n \in elig : ~Unavail(seen[n]) /\ (env.ign \/ ~Excl(seen[n])) /\ L2OnNode(ld, pool, n)}
          avail == IF v.etp = "Local" THEN {n \in spk : ReadyOn(v, n)} ELSE spk
-     IN avail # {} /\ Winner(avail, v.ips[1], rank) = Me
+     IN avail # {} /\ Winner(avail, v.ips[1], env.rank) = Me
 
 (* ipAdvertisementFor + MatchInterfaces                                     *)
 L2AdvFor(ld, pool, a) ==
@@ -206,57 +216,70 @@ L2Match(adv) == adv.all \/ adv.ifs \cap LocalIfs # {}
 (*  ips   service |-> addresses, <<>> = none (c.svcIPs)                     *)
 (*  l2    service |-> set of [ip, all, ifs] (Announce.ips)                  *)
 (*  ads   service |-> set of AdRec (bgpController.svcAds)                   *)
+(*  peers set of peer records (bgpController.peers)                         *)
 (*  sess  peer name |-> Down | Up(routes last Set on the live session)      *)
 (*  act   service |-> set of peer names (bgpController.activeAds)           *)
+(*  sf    peers whose latest session start failed                           *)
+(* and the armed faults of the session manager: fs = peers whose next       *)
+(* NewSession fails, fset = the next Set fails; err = the handler running   *)
+(* hit an error.                                                            *)
 Down == [up |-> FALSE, rts |-> {}]
 Up(r) == [up |-> TRUE, rts |-> r]
 EmptyMem ==
   [cfg |-> NULL, rcfg |-> NULL, seen |-> [n \in SpkNodes |-> NULL], annB |-> {}, annL |-> {},
    ips |-> [s \in SpkSvcs |-> <<>>], l2 |-> [s \in SpkSvcs |-> {}], ads |-> [s \in SpkSvcs |-> {}],
-   sess |-> [p \in PeerNames |-> Down], act |-> [s \in SpkSvcs |-> {}]]
+   peers |-> {}, sess |-> [p \in PeerNames |-> Down], act |-> [s \in SpkSvcs |-> {}],
+   sf |-> {}, fs |-> {}, fset |-> FALSE, err |-> FALSE]
 
 AllAds(ads) == UNION {ads[s] : s \in SpkSvcs}
 PeerSet(p, ads) == {RouteOf(ad) : ad \in {x \in AllAds(ads) : ToPeer(p, x)}}
 Publish(sess, ads) == [p \in PeerNames |-> IF sess[p].up THEN Up(PeerSet(p, ads)) ELSE Down]
 ActiveOf(sess, ads) ==
   [s \in SpkSvcs |-> {p \in PeerNames : sess[p].up /\ \E r \in sess[p].rts : \E ad \in ads[s] : ad.pfx = r.pfx}]
-(* updateAds = publishAds + notifyAdsChanged *)
-UpdateAds(m) == LET s2 == Publish(m.sess, m.ads) IN [m EXCEPT !.sess = s2, !.act = ActiveOf(s2, m.ads)]
+(* updateAds = publishAds + notifyAdsChanged.  An armed Set failure hits    *)
+(* the first Set of the publication: nothing is offered, the report is not  *)
+(* refreshed, the error goes up.                                            *)
+UpdateAds(m) ==
+  IF m.fset /\ \E p \in PeerNames : m.sess[p].up
+  THEN [m EXCEPT !.fset = FALSE, !.err = TRUE]
+  ELSE LET s2 == Publish(m.sess, m.ads) IN [m EXCEPT !.sess = s2, !.act = ActiveOf(s2, m.ads)]
 
-(* syncPeers: close what must not run, open what must run; republish only   *)
-(* when a session was opened                                                *)
-SyncPeers(m, peers, me) ==
-  LET run == {p.name : p \in {q \in peers : PeerShouldRun(q, me)}}
-      opened == {p \in run : ~m.sess[p].up}
-      s1 == [p \in PeerNames |-> IF p \notin run THEN Down ELSE IF m.sess[p].up THEN m.sess[p] ELSE Up({})]
-      m1 == [m EXCEPT !.sess = s1]
-  IN IF opened = {} THEN m1 ELSE UpdateAds(m1)
+(* syncPeers: close what must not run, open what must run (a start may      *)
+(* fail), republish when a session was opened or closed                     *)
+SyncPeers(m, me) ==
+  LET run == {p.name : p \in {q \in m.peers : PeerShouldRun(q, me)}}
+      closed == {p \in PeerNames : m.sess[p].up /\ p \notin run}
+      want == {p \in run : ~m.sess[p].up}
+      failed == want \cap m.fs
+      opened == want \ failed
+      s1 == [p \in PeerNames |-> IF p \notin run \/ p \in failed THEN Down ELSE IF m.sess[p].up THEN m.sess[p] ELSE Up({})]
+      m1 == [m EXCEPT !.sess = s1, !.fs = @ \ failed, !.sf = (@ \ opened) \cup failed]
+      m2 == IF opened # {} \/ closed # {} THEN UpdateAds(m1) ELSE m1
+  IN [m2 EXCEPT !.err = @ \/ failed # {}]
 
-PeersOfCfg(c) == IF c = NULL THEN {} ELSE SpkLayouts[c.layout].peers
-
-(* deleteBalancerProtocol *)
+(* deleteBalancerProtocol; an error of the BGP handler leaves c.announced   *)
 DelB(m, s) ==
   IF s \notin m.annB THEN m
   ELSE LET m1 == UpdateAds([m EXCEPT !.ads[s] = {}])
            m2 == [m1 EXCEPT !.annB = @ \ {s}]
-       IN IF s \in m2.annL THEN m2 ELSE [m2 EXCEPT !.ips[s] = <<>>]
+       IN IF m1.err THEN m1 ELSE IF s \in m2.annL THEN m2 ELSE [m2 EXCEPT !.ips[s] = <<>>]
 DelL(m, s) ==
   IF s \notin m.annL THEN m
   ELSE LET m2 == [m EXCEPT !.l2[s] = {}, !.annL = @ \ {s}]
        IN IF s \in m2.annB THEN m2 ELSE [m2 EXCEPT !.ips[s] = <<>>]
-DelAll(m, s) == DelL(DelB(m, s), s)
+DelAll(m, s) == LET a == DelB(m, s) IN IF a.err THEN a ELSE DelL(a, s)
 
-(* layer2Controller.SetBalancer: addresses whose advertisement matches no   *)
-(* local interface are skipped (what is there stays)                        *)
+(* layer2Controller.SetBalancer: an address whose advertisement matches no  *)
+(* local interface withdraws what the service had in the announcer          *)
 RECURSIVE L2Set(_, _, _, _, _)
 L2Set(cur, ld, pool, ips, i) ==
   IF i > Len(ips) THEN cur
   ELSE LET adv == L2AdvFor(ld, pool, ips[i])
-       IN L2Set(IF L2Match(adv) THEN {e \in cur : e.ip # ips[i]} \cup {adv} ELSE cur, ld, pool, ips, i + 1)
+       IN L2Set(IF L2Match(adv) THEN {e \in cur : e.ip # ips[i]} \cup {adv} ELSE {}, ld, pool, ips, i + 1)
 
 SetB(m, ld, pool, s, v) ==
   LET m1 == UpdateAds([m EXCEPT !.ads[s] = AdsOf(ld, pool, v.ips)])
-  IN IF s \in m1.annB THEN m1 ELSE [m1 EXCEPT !.annB = @ \cup {s}, !.ips[s] = v.ips]
+  IN IF m1.err \/ s \in m1.annB THEN m1 ELSE [m1 EXCEPT !.annB = @ \cup {s}, !.ips[s] = v.ips]
 SetL(m, ld, pool, s, v) ==
   LET m1 == [m EXCEPT !.l2[s] = L2Set(m.l2[s], ld, pool, v.ips, 1)]
   IN IF s \in m1.annL THEN m1 ELSE [m1 EXCEPT !.annL = @ \cup {s}, !.ips[s] = v.ips]
@@ -264,8 +287,9 @@ SetL(m, ld, pool, s, v) ==
 SameIPs(x, y) == Len(x) = Len(y) /\ Range(x) \subseteq Range(y)
 
 (* controller.SetBalancer; v = NULL for a deleted service.  env = the       *)
-(* memberlist view and the hash order [members, ml, rank]                   *)
-SetBalancer(m, env, s, v) ==
+(* memberlist view, the hash order and the flag [members, ml, rank, ign].   *)
+(* The result has err = TRUE when the handler returned SyncStateError.      *)
+SetBalancerBody(m, env, s, v) ==
   IF v = NULL THEN DelAll(m, s)
   ELSE IF v.type # "LB" THEN DelAll(m, s)
   ELSE IF m.cfg = NULL THEN m
@@ -274,34 +298,41 @@ SetBalancer(m, env, s, v) ==
            pool == PoolOf(ld, v.ips)
        IN IF pool = "" THEN DelAll(m, s)
           ELSE LET m0 == IF m.ips[s] # <<>> /\ ~SameIPs(v.ips, m.ips[s]) THEN DelAll(m, s) ELSE m
-                   m1 == IF BGPShould(ld, m0.seen, pool, v) THEN SetB(m0, ld, pool, s, v) ELSE DelB(m0, s)
-               IN IF L2Should(ld, m1.seen, env.members, env.ml, pool, v, env.rank)
-                  THEN SetL(m1, ld, pool, s, v) ELSE DelL(m1, s)
+                   m1 == IF BGPShould(ld, m0.seen, env.ign, pool, v) THEN SetB(m0, ld, pool, s, v) ELSE DelB(m0, s)
+               IN IF m0.err THEN m0
+                  ELSE IF m1.err THEN m1
+                  ELSE IF L2Should(ld, m1.seen, env, pool, v) THEN SetL(m1, ld, pool, s, v) ELSE DelL(m1, s)
+SetBalancer(m, env, s, v) == SetBalancerBody([m EXCEPT !.err = FALSE], env, s, v)
 
-(* controller.SetConfig: refused when an announced address has no pool      *)
+(* controller.SetConfig: refused when an announced address has no pool;     *)
+(* when the BGP handler fails the new peers are in place but c.config is    *)
+(* not (SyncStateErrorNoRetry: err = TRUE in the result)                    *)
 CfgRefused(m, c) == \E s \in SpkSvcs : m.ips[s] # <<>> /\ PoolOf(Loaded(c), m.ips[s]) = ""
 SetConfig(m, c) ==
-  LET old == PeersOfCfg(m.cfg)
-      new == SpkLayouts[c.layout].peers
-      kept == {p.name : p \in old \cap new}
+  LET new == SpkLayouts[c.layout].peers
+      kept == {p.name : p \in m.peers \cap new}
       s1 == [p \in PeerNames |-> IF p \in kept THEN m.sess[p] ELSE Down]
-  IN [SyncPeers([m EXCEPT !.sess = s1], new, m.seen[Me]) EXCEPT !.cfg = c]
+      m1 == SyncPeers([m EXCEPT !.sess = s1, !.peers = new, !.sf = @ \cap kept, !.err = FALSE], m.seen[Me])
+  IN IF m1.err THEN m1 ELSE [m1 EXCEPT !.cfg = c]
 
-(* controller.SetNode; returns [m, reprocess]                               *)
+(* controller.SetNode; returns [m, reprocess]; m.err = SyncStateError       *)
 SetNode(m, n, v) ==
   LET old == m.seen[n]
       changed == old # NULL /\ (old.unavail # v.unavail \/ old.excl # v.excl)
-      m1 == [m EXCEPT !.seen[n] = v]
+      m1 == [m EXCEPT !.seen[n] = v, !.err = FALSE]
       relabel == n = Me /\ (old = NULL \/ old.label # v.label \/ old.excl # v.excl)
-  IN [m |-> IF relabel THEN SyncPeers(m1, PeersOfCfg(m.cfg), v) ELSE m1, reprocess |-> changed]
+      m2 == IF relabel THEN SyncPeers(m1, v) ELSE m1
+  IN [m |-> m2, reprocess |-> changed /\ ~m2.err]
 
-(* one full re-sync: every existing service through the handler             *)
-RECURSIVE PassOver(_, _, _, _)
-PassOver(m, env, svcs, todo) ==
-  IF todo = {} THEN m
+(* one full re-sync: every existing service through the handler; the result *)
+(* has err = TRUE when some handler failed (the pass is retried)            *)
+RECURSIVE PassOver(_, _, _, _, _)
+PassOver(m, env, svcs, todo, anyerr) ==
+  IF todo = {} THEN [m EXCEPT !.err = anyerr]
   ELSE LET s == CHOOSE x \in todo : \A y \in todo : Len(svcs[x].ips) >= Len(svcs[y].ips)
-       IN PassOver(SetBalancer(m, env, s, svcs[s]), env, svcs, todo \ {s})
-Resync(m, env, svcs) == PassOver(m, env, svcs, {s \in SpkSvcs : svcs[s] # NULL})
+           m1 == SetBalancer(m, env, s, svcs[s])
+       IN PassOver(m1, env, svcs, todo \ {s}, anyerr \/ m1.err)
+Resync(m, env, svcs) == PassOver(m, env, svcs, {s \in SpkSvcs : svcs[s] # NULL}, FALSE)
 
 ----------------------------------------------------------------------------
 (* What the speaker announces: layer-2 (service, address, scope) set and    *)
@@ -315,9 +346,10 @@ RECURSIVE SeeAll(_, _, _)
 SeeAll(m, nodes, todo) ==
   IF todo = {} THEN m
   ELSE LET n == CHOOSE x \in todo : TRUE IN SeeAll(SetNode(m, n, nodes[n]).m, nodes, todo \ {n})
+EnvOf(cl, rank) == [members |-> cl.members, ml |-> cl.ml, rank |-> rank, ign |-> cl.ign]
 FreshMem(cl, rank) ==
   LET m1 == SeeAll(EmptyMem, cl.nodes, SpkNodes)
       m2 == SetConfig(m1, CfgOf(cl.layout, cl.nodes))
-  IN Resync(m2, [members |-> cl.members, ml |-> cl.ml, rank |-> rank], cl.svcs)
+  IN Resync(m2, EnvOf(cl, rank), cl.svcs)
 Fresh(cl, rank) == Announced(FreshMem(cl, rank))
 =============================================================================
